@@ -108,7 +108,9 @@ pub fn scenarios(tier: Tier) -> Vec<Scenario> {
                     continue; // covered in pairs
                 }
                 let heavy = ms.iter().filter(|r| matches!(**r, 3 | 4 | 6 | 7 | 8 | 10 | 13 | 15)).count();
-                add(&ms, 1, if heavy >= 2 { 1 } else { 2 });
+                // three channeled subscribers bring three delivery threads: hand-over orders only
+                let chan = ms.iter().filter(|r| matches!(**r, 3 | 4 | 13)).count();
+                add(&ms, 1, if chan == 3 { 0 } else if heavy >= 2 { 1 } else { 2 });
             }
             for ms in multisets(ROLES.len(), 4) {
                 // four clients: non-preemptive schedules only (every order in which blocked or
